@@ -17,6 +17,31 @@ pub fn plan(t: Tier) -> Plan {
 pub struct Case {
     pub prog: ProgCase,
     pub features: Vec<String>,
+    /// stand-alone program with one long straight-line body of *cheap* statements (see `cheap_long_body`); `prog` is unused
+    #[serde(default)]
+    pub cheap_body: Option<String>,
+}
+
+/// One function body of 100-600 statements none of which needs a Lua local of its own in the emitted code: assignments
+/// of literals to a variable, compound assignments with literals, unused literals, asserts between literals.
+/// (Definitions, variable reads and calls each cost a local - that is the open finding `too-many-locals`; these do not,
+/// so such a body has to load whatever its length.)
+fn cheap_long_body(t: &mut Tape) -> String {
+    let n = *t.pick(&[100usize, 190, 199, 200, 201, 250, 256, 400, 600]);
+    let kind = t.below(6);
+    let mut s = String::from("Zb :: blob { f: int, g: str }\nstart :: fn do\n    x := 0\n    y := \"\"\n    b := Zb { f: 0, g: \"\" }\n");
+    for i in 1..=n {
+        let k = if kind == 5 { t.below(5) } else { kind };
+        match k {
+            0 => s.push_str(&format!("    x = {}\n", i)),
+            1 => s.push_str(&format!("    {} <=> {}\n", i, i)),
+            2 => s.push_str("    x += 1\n"),
+            3 => s.push_str(&format!("    {}\n", i)),
+            _ => s.push_str(&format!("    y = \"s{}\"\n", i)),
+        }
+    }
+    s.push_str("    print(x)\n    print(b.f)\n    print(y)\nend\n");
+    s
 }
 
 pub fn lexical_cfg(t: &mut Tape, thorough: bool) -> GenCfg {
@@ -129,6 +154,10 @@ impl Check for C06 {
     }
     fn generate(&self, u: &mut Unstructured, tier: Tier) -> Option<Case> {
         let mut t = Tape::new(u);
+        if t.chance(1, 40) {
+            let src = cheap_long_body(&mut t);
+            return Some(Case { prog: ProgCase { prog: Program::default(), plan: SurfacePlan::default(), source: src.clone() }, features: vec!["cheap-long-body".into()], cheap_body: Some(src) });
+        }
         let cfg = lexical_cfg(&mut t, tier == Tier::Thorough);
         let mut prog = Gen::new(&mut t, cfg).program();
         // a quarter of the cases: loop exits and returns planted at arbitrary statement positions. Most of these
@@ -154,10 +183,30 @@ impl Check for C06 {
         let source = render(&prog, &plan).text;
         let mut features = features(&prog, &source);
         let _ = &mut features;
-        Some(Case { prog: ProgCase { prog, plan, source }, features })
+        Some(Case { prog: ProgCase { prog, plan, source }, features, cheap_body: None })
     }
 
     fn evaluate(&self, case: &Case, labels: &mut Labels) -> Verdict {
+        if let Some(src) = &case.cheap_body {
+            labels.add("feature:cheap-long-body");
+            return match compile(&Project::single(src.clone())) {
+                Outcome::Accepted(lua) => match minilua::load(&lua) {
+                    Ok(_) => {
+                        labels.add("accepted");
+                        Verdict::Pass { nontrivial: true }
+                    }
+                    Err(e) => Verdict::Violation {
+                        signature: format!("C06/lua-load/{}/cheap-long-body", e.class),
+                        detail: format!("a function body of literal assignments / compound assignments / unused literals (no definitions, reads or calls) does not load: {}\n--- source (head) ---\n{}", e.msg, src.chars().take(600).collect::<String>()),
+                    },
+                },
+                Outcome::Rejected { errors, .. } => {
+                    labels.add(format!("cheap-long-body-rejected:{}", errors[0].kind));
+                    Verdict::Discard("rejected".into())
+                }
+                Outcome::Panicked { .. } => Verdict::Discard("compiler-panicked".into()),
+            };
+        }
         let printed = render(&case.prog.prog, &case.prog.plan);
         let feats = features(&case.prog.prog, &printed.text);
         for f in &feats {
@@ -225,10 +274,25 @@ impl Check for C06 {
     }
 
     fn simplify_at(&self, case: &Case, idx: usize) -> Step<Case> {
+        if let Some(src) = &case.cheap_body {
+            // fewer statements: drop the idx-th block of ten body lines
+            let lines: Vec<&str> = src.lines().collect();
+            let body = lines.len().saturating_sub(9);
+            if idx * 10 >= body {
+                return Step::End;
+            }
+            let (a, b) = (5 + idx * 10, (5 + idx * 10 + 10).min(5 + body));
+            let kept: Vec<&str> = lines.iter().enumerate().filter(|(i, _)| *i < a || *i >= b).map(|(_, l)| *l).collect();
+            let out = kept.join("\n") + "\n";
+            let mut c = case.clone();
+            c.prog.source = out.clone();
+            c.cheap_body = Some(out);
+            return Step::Candidate(c);
+        }
         match shrink_step(&case.prog, idx) {
             Step::End => Step::End,
             Step::Skip => Step::Skip,
-            Step::Candidate(p) => Step::Candidate(Case { prog: p, features: case.features.clone() }),
+            Step::Candidate(p) => Step::Candidate(Case { prog: p, features: case.features.clone(), cheap_body: None }),
         }
     }
     fn sample(&self, case: &Case) -> serde_json::Value {
